@@ -94,16 +94,50 @@ def run(res):
             if base is None: base = key
             elif key != base:
                 violations.append(dict(kind="input", check="num-threads-%d-differs-from-1" % nt, cli=dict(scenario=sc2), expected="same status and file contents for every --num-threads"))
+    # (4) many files per directory, written by many workers at once; and a walk that ends on an error (a configuration file that does not
+    # parse in a sub-directory) while workers are busy: every file must hold exactly its own formatted text, and status and set of files
+    # written must be the same for every --num-threads and every repetition
+    big = 0
+    def big_tree(root, broken):
+        for d in ("a", "b", "c", "zz"):
+            os.makedirs(os.path.join(root, d))
+            for i in range(50): open(os.path.join(root, d, "m%d.lua" % i), "w").write("local   %s%d   =   %d\n" % (d, i, i))
+        if broken: open(os.path.join(root, "zz", "stylua.toml"), "w").write('column_width = "oops"\n')
+    def big_state(root):
+        st = []
+        for d in ("a", "b", "c", "zz"):
+            for i in range(50):
+                t = open(os.path.join(root, d, "m%d.lua" % i)).read()
+                st.append("f" if t == "local %s%d = %d\n" % (d, i, i) else ("u" if t == "local   %s%d   =   %d\n" % (d, i, i) else "X"))
+        return "".join(st)
+    for broken in (False, True):
+        base = None
+        for nt in (1, 16, 3, 16, 8, 1):
+            root = scratch("c19big")
+            try:
+                big_tree(root, broken)
+                code, _, _ = stylua(["--no-editorconfig", "--num-threads", str(nt), "."], root)
+                key = (code, big_state(root)); big += 1
+            finally:
+                cleanup(root)
+            want_code = 2 if broken else 0
+            if "X" in key[1] or key[0] != want_code or (not broken and "u" in key[1]) or (base is not None and key != base):
+                violations.append(dict(kind="input", check="many-files-%s-num-threads-%d" % ("walk-error" if broken else "all-good", nt),
+                                       cli=dict(scenario=dict(id="big-%s" % ("broken" if broken else "good"), note="4 directories x 50 unformatted files%s; --num-threads %d" % (", zz/stylua.toml does not parse" if broken else "", nt)),
+                                                observed="status %d, files formatted/unformatted/garbled: %d/%d/%d" % (key[0], key[1].count("f"), key[1].count("u"), key[1].count("X"))),
+                                       expected="every file holds its own formatted text or its original text; the same status and the same set of written files for every --num-threads and repetition"))
+                break
+            if base is None: base = key
     ok, tot, bads, _, err = judge(all_lines)
     tie_ok = ok and not bads and not violations and forced > 0
     if t_ok and proof["ok"]: res.coverage["discharged"] = proof["discharged"] + 1 + (1 if tie_ok else 0)
     res.coverage.update(
-        evaluations=forced + sweep, distinct_nontrivial=len(distinct),
+        evaluations=forced + sweep + big, distinct_nontrivial=len(distinct),
         rule="for 4 file sets containing a missing path, an unparseable file and unformatted files, in check and write mode, every order of the arguments: the accesses to the exit code are traced, then EVERY distinct total order of "
-             "those accesses is forced through the cfg(stylua_verif) scheduling cell (orders that contradict program order time out and are counted as infeasible: %d); plus %d random trees run with --num-threads 1..16. "
+             "those accesses is forced through the cfg(stylua_verif) scheduling cell (orders that contradict program order time out and are counted as infeasible: %d); plus %d random trees run with --num-threads 1..16, plus a tree of 4 directories x 50 files under 6 thread counts, once all good and once with a configuration file that does not parse in the last directory. "
              "distinct = distinct (file set, mode, argument order, forced order)" % (infeasible_n, n_trees),
         samples=samples or ["-"], exhaustive=(res.tier != "quick"),
-        input_distribution=dict(forced_schedules=forced, infeasible_orders=infeasible_n, thread_sweep_runs=sweep, **tot),
+        input_distribution=dict(forced_schedules=forced, infeasible_orders=infeasible_n, thread_sweep_runs=sweep, many_files_runs=big, **tot),
         kernels_translated=["src/cli/main.rs :: EXIT_CODE accesses -> coq/gen/ExitOps.v (rs2v); programs: %s" % (generated_programs() if t_ok else "-")],
         correspondence="each forced or swept run is also judged by the extracted CliModel.run (status, contents); the generated programs are searched exhaustively for a bad interleaving in the model (Sched.find_bad_schedule) and that order is forced first")
     res.assumptions = ["real preemption is replaced by forced orders of the named accesses to the exit-code cell; other shared state (stdout lock, channel, thread pool) is not scheduled",
